@@ -29,7 +29,15 @@ pub fn pair_key(asset_infos: &[AssetInfoRaw; 2]) -> Vec<u8> {
     let mut asset_infos = asset_infos.to_vec();
     asset_infos.sort_by(|a, b| a.as_bytes().cmp(b.as_bytes()));
 
-    [asset_infos[0].as_bytes(), asset_infos[1].as_bytes()].concat()
+    // the first identifier is length-prefixed so that two different asset sets
+    // can never concatenate to the same key (e.g. "ab"+"c" and "a"+"bc")
+    let first_len = (asset_infos[0].as_bytes().len() as u32).to_be_bytes();
+    [
+        first_len.as_slice(),
+        asset_infos[0].as_bytes(),
+        asset_infos[1].as_bytes(),
+    ]
+    .concat()
 }
 
 // settings for pagination
@@ -57,13 +65,7 @@ pub fn read_pairs(
 // this will set the first key after the provided key, by appending a 1 byte
 fn calc_range_start(start_after: Option<[AssetInfoRaw; 2]>) -> Option<Vec<u8>> {
     start_after.map(|asset_infos| {
-        let mut asset_infos = asset_infos.to_vec();
-        asset_infos.sort_by(|a, b| a.as_bytes().cmp(b.as_bytes()));
-
-        let mut v = [asset_infos[0].as_bytes(), asset_infos[1].as_bytes()]
-            .concat()
-            .as_slice()
-            .to_vec();
+        let mut v = pair_key(&asset_infos);
         v.push(1);
         v
     })
